@@ -170,7 +170,7 @@ func engineRelayAppend(rng *rand.Rand, n int, tier string, o *Out) {
 					refused = true
 					return
 				}
-				verdict = fmt.Sprintf("call through an appending relay failed (arg3 style %d, %d appended pairs): %v", style, len(app), err)
+				verdict = fmt.Sprintf("call through an appending relay failed (arg3 style %d, %d appended pairs): the three arguments were written and flushed without an error but were not read back: %v", style, len(app), err)
 				return
 			}
 			if err := tchannel.NewArgReader(call.Response().Arg3Reader()).Read(&r3); err != nil {
@@ -192,9 +192,9 @@ func engineRelayAppend(rng *rand.Rand, n int, tier string, o *Out) {
 			if !ok || fmt.Sprint(pairs) != fmt.Sprint(want) {
 				verdict = fmt.Sprintf("destination saw %d arg2 pairs (well-formed %v), want the %d original pairs followed by the %d appended ones", len(pairs), ok, len(orig), len(app))
 			} else if !bytes.Equal(got.Arg3, arg3) || got.Method != method {
-				verdict = "arg1/arg3 changed by the appending relay"
+				verdict = "arg1/arg3 changed by the appending relay: the destination read back other bytes than were written"
 			} else if !bytes.Equal(r3, arg3) {
-				verdict = "response arg3 differs"
+				verdict = "response arg3 differs: the caller read back other bytes than the handler wrote"
 			}
 		}()
 		if refused {
